@@ -732,11 +732,15 @@ Theorem c04_crashed_flag_lemma d r :
   (running r = false -> crashed (crash1 r) = crashed r) /\
   crashed (bounce1 r) = false /\
   crashed (adv d r) = crashed r /\
-  crashed (new_rt (is_client r) (sw r) d) = false.
+  crashed (new_rt (is_client r) (sw r) d) = false /\
+  crash1 (crash1 r) = crash1 r /\
+  (crashed r = true -> crashed (crash1 r) = true).
 Proof.
-  repeat split; cbn; try (intros ->; reflexivity).
-  unfold adv. destruct (running r) eqn:E; [|reflexivity].
-  destruct (rt_tick_fst_running r E) as [b ->]. reflexivity.
+  split; [cbn; intros ->; reflexivity|]. split; [cbn; intros ->; reflexivity|].
+  split; [reflexivity|]. split.
+  - unfold adv. destruct (running r) eqn:E; [|reflexivity].
+    destruct (rt_tick_fst_running r E) as [b ->]. reflexivity.
+  - split; [reflexivity|]. split; [reflexivity|]. cbn. intros ->. apply orb_true_r.
 Qed.
 
 (* --- loopback streams at crash: nothing for the host itself is put on the wire --- *)
